@@ -541,7 +541,13 @@ def explore(body, domcls=IntDom, max_paths=20000, setup=None):
     deterministic given the decisions."""
     paths = []
     work = [[]]
+    import time as _time
+    budget = float(os.environ.get('VERIF_EXPLORE_BUDGET_S', '180'))
+    t0 = _time.time()
     while work:
+        if _time.time() - t0 > budget:
+            # never hang: an exploration that does not finish within its budget is a tool limit (undecided), not a verdict
+            raise Unsupported('path exploration did not finish within %d s (%d paths so far, %d pending)' % (budget, len(paths), len(work)))
         prefix = work.pop()
         run = Run(prefix, domcls)
         try:
@@ -2274,7 +2280,8 @@ def _b_vars(it, args, kw):
 
 
 def _b_range(it, args, kw):
-    if any(is_sym(a) for a in args):
+    big = not any(is_sym(a) for a in args) and it.hooks.get('range') is not None and all(isinstance(a, int) for a in args) and len(range(*args)) > 3
+    if any(is_sym(a) for a in args) or big:
         h = it.hooks.get('range')
         if h:
             return h(it, args)
